@@ -181,6 +181,9 @@ def two_pass(I, h, smax=2, mmax=2):
 
     def inner(I_, callee, args, fr):
         state = stdmodels.deref(args[0])                 # &(S, PostStateArc<S>)
+        first, second = state.cells[0].v, state.cells[1].v
+        if not (isinstance(first, Agg) and first.name == "State") or not (isinstance(second, Agg) and (second.name or "").endswith("PostStateArc")):
+            raise Violation(f"the per-pass check is not given (pre-state, post-state) in this order: ({getattr(first, 'name', first)}, {getattr(second, 'name', second)})", E.model_for())
         post = state.cells[1].v.cells[0].v.cell.v.cells[0].v   # PostStateArc.0 (Arc<PostState>) .state
         snapshot = [(k, [(seq_vals(kk), seq_vals(c.v)) for kk, c in inner_.v.items]) for k, inner_ in post.items]
         mode = args[5].variant
